@@ -221,6 +221,9 @@ impl BitFont {
     //const PSF2_STARTSEQ: u8 = 0xFE;
 
     fn load_psf2(font_name: impl Into<String>, data: &[u8]) -> EngineResult<Self> {
+        if data.len() < 32 {
+            return Err(FontError::LengthMismatch(data.len(), 32).into());
+        }
         let version = u32::from_le_bytes(data[4..8].try_into().unwrap());
         if version > BitFont::PSF2_MAXVERSION {
             return Err(FontError::UnsupportedVersion(version).into());
@@ -229,8 +232,9 @@ impl BitFont {
         // let flags = u32::from_le_bytes(data[12..16].try_into().unwrap());
         let length = u32::from_le_bytes(data[16..20].try_into().unwrap()) as i32;
         let charsize = u32::from_le_bytes(data[20..24].try_into().unwrap()) as i32;
-        if length * charsize + headersize as i32 != data.len() as i32 {
-            return Err(FontError::LengthMismatch(data.len(), (length * charsize) as usize + headersize).into());
+        let expected = i64::from(length) * i64::from(charsize) + headersize as i64;
+        if length < 0 || charsize < 0 || expected != data.len() as i64 {
+            return Err(FontError::LengthMismatch(data.len(), expected as usize).into());
         }
         let height = u32::from_le_bytes(data[24..28].try_into().unwrap()) as usize;
         let width = u32::from_le_bytes(data[28..32].try_into().unwrap()) as usize;
@@ -287,14 +291,17 @@ impl BitFont {
     ///
     /// This function will return an error if .
     pub fn from_bytes(font_name: impl Into<String>, data: &[u8]) -> EngineResult<Self> {
-        let magic16 = u16::from_le_bytes(data[0..2].try_into().unwrap());
-        if magic16 == BitFont::PSF1_MAGIC {
-            return Ok(BitFont::load_psf1(font_name, data));
-        }
+        // both PSF headers are at least 4 bytes long; shorter input can only be a (degenerate) plain font
+        if data.len() >= 4 {
+            let magic16 = u16::from_le_bytes(data[0..2].try_into().unwrap());
+            if magic16 == BitFont::PSF1_MAGIC {
+                return Ok(BitFont::load_psf1(font_name, data));
+            }
 
-        let magic32 = u32::from_le_bytes(data[0..4].try_into().unwrap());
-        if magic32 == BitFont::PSF2_MAGIC {
-            return BitFont::load_psf2(font_name, data);
+            let magic32 = u32::from_le_bytes(data[0..4].try_into().unwrap());
+            if magic32 == BitFont::PSF2_MAGIC {
+                return BitFont::load_psf2(font_name, data);
+            }
         }
 
         BitFont::load_plain_font(font_name, data)
